@@ -495,6 +495,13 @@ def _structure_union(data: Any, union_type: type) -> Any:
 
         # All variants failed - provide helpful error with data preview
         if errors:
+            # A typed dict variant (dict[str, T]) can also hold a JSON object: try those before giving up
+            for variant in other_variants:
+                if get_origin(variant) is dict:
+                    try:
+                        return converter.structure(data, variant)
+                    except Exception as e:
+                        errors.append((str(variant), str(e)))
             data_preview = _truncate_data_repr(data)
             error_details = "\n".join(f"  - {name}: {err}" for name, err in errors)
             raise ValueError(
